@@ -68,12 +68,12 @@ class PrescribedReadable extends Readable {
     }
 }
 
-async function next_record(it, stream) {
+async function next_record(it, stream, what) {
     // -> {settled, rec | err} ; stuck when the promise stays pending for many event-loop turns after the stream ended (logical watchdog, no wall clock)
     let state = {settled: false, rec: undefined, err: undefined, stuck: false};
     let p = null;
     try {
-        p = it.get_record();
+        p = what === 'header' ? it.get_header() : it.get_record();
     } catch (e) {
         state.settled = true; state.err = e; return state;
     }
@@ -125,10 +125,17 @@ async function op_read(req) {
         let it = new rbql_csv.CSVRecordIterator(stream, csv_path, req.encoding, req.delim, req.policy, !!req.has_header, req.comment_prefix || null);
         let header = null;
         let herr = null;
+        let hstuck = false;
         if (req.has_header) {
-            try { header = await it.get_header(); } catch (e) { herr = err_info(e); }
+            // the header is awaited under the same logical watchdog as the records: a reader whose promise never settles is reported, not waited for
+            let hs = await next_record(it, stream, 'header');
+            if (hs.stuck) hstuck = true;
+            else if (hs.err !== undefined) herr = err_info(hs.err);
+            else header = hs.rec;
         }
-        if (herr) {
+        if (hstuck) {
+            result = {records: [], error: null, stuck: true, header: null, warnings: []};
+        } else if (herr) {
             result = {records: [], error: herr, stuck: false, header: null, warnings: []};
         } else {
             let d = await drain_iterator(it, stream, null);
